@@ -149,6 +149,20 @@ Section AvailSteps.
       eapply calc_lends_avail; [|exact H]. eapply calc_borrows_avail; eassumption.
     - injection H as <-. exact HA.
     - unfold hand_over in H. destr_all H; av_pos HA; try (injection H as <-; exact HA); av_fin H.
+    - unfold auc_bid in H. destr_all H. injection H as <-. exact HA.
+    - (* the close rewrites the user mapping of the lend position only *)
+      unfold auc_close in H. destr_all H. injection H as <-. cbn [lends with_bank with_books].
+      destruct (zget (lends st) (b_lend b)) as [l|] eqn:El; [|exact HA].
+      apply A_upd; [exact HA|cbn [upd_lend l_avail]; exact (HA _ _ El)].
+    - unfold repay_withdraw in H.
+      destruct (close_borrow cfg st user bid e) as [st1|c|] eqn:E1; cbn [obind] in H; try discriminate.
+      pose proof (close_borrow_avail _ _ _ _ _ HG HA E1) as HA1. destr_all H. eapply withdraw_avail; eassumption.
+    - unfold fund_mod in H. destr_all H. injection H as <-. exact HA.
+    - unfold fund_reserve in H. destr_all H. injection H as <-. exact HA.
+    - destr_all H. injection H as <-. exact HA.
+    - destr_all H. injection H as <-. exact HA.
+    - unfold hand_over_v1 in H. destr_all H; try (injection H as <-; exact HA).
+      injection H as <-. cbn [lends]. apply A_upd; [exact HA|cbn [upd_lend l_avail]; eapply HA; eassumption].
   Qed.
 
   Lemma run_avail ops : forall st, Good cfg st -> clean cfg st ops -> Avail (lends st) -> Avail (lends (run cfg st ops)).
